@@ -87,7 +87,9 @@ BinOutcome(op, l, r) ==
           (IF op = "or" /\ (a.any \/ b.any) THEN OkOrRaise(AnyV, ex) ELSE RaiseO(ex))
      ELSE IF op = "or" THEN
           (IF a.any \/ b.any THEN OkO(AnyV)
-           ELSE OkO([neg |-> a.neg, iv |-> Union(a.iv, b.iv), any |-> FALSE, glob |-> a.glob \/ b.glob]))
+           \* the union of a global word class with another class is an ordinary class again (only instances of
+           \* AnyWordChar/AnyButWordChar refuse subtraction); its Unicode extras stay don't-care through the dc flags
+           ELSE OkO([neg |-> a.neg, iv |-> Union(a.iv, b.iv), any |-> FALSE, glob |-> FALSE]))
      ELSE \* subtraction
           IF b.any THEN RaiseO(EmptyEx)
           ELSE IF a.any THEN OkO([neg |-> TRUE, iv |-> b.iv, any |-> FALSE, glob |-> b.glob])
